@@ -78,6 +78,11 @@ def cfgDen (svc : Svc) (f ip : Nat) (iok : Bool) (cfg : Nat) : Nat × IRes :=
   | .err e => ((rdyDen svc).1, .err e)
   | _ => ((rdyDen svc).1 + ip, cfgRes (settle svc) f iok cfg)
 
+/-- `TransformExt::map_init_err`: the init error of the transform is mapped -/
+def mapIErr : Option Nat → IRes → IRes
+  | some m, .err e => .err (mapFn m e)
+  | _, r => r
+
 def facDen : Fac → Nat → Nat × IRes
   | .leaf id ip iok true s, cfg => (ip, leafIRes id iok cfg s)
   | .leaf id ip iok false s, _ => (ip, leafIRes id iok 0 s)
@@ -87,7 +92,8 @@ def facDen : Fac → Nat → Nat × IRes
   | .mapInitErr a f, cfg => match facDen a cfg with | (p, .err e) => (p, .err (mapFn f e)) | d => d
   | .andThen a b, cfg => joinDen (facDen a cfg) (facDen b cfg)
   | .applyFn a kind k, cfg => mapOk (fun s => .applyFn s kind k) (facDen a cfg)
-  | .transform t tp tok a, cfg => match facDen a cfg with | (p, .ok s) => (p + tp, transRes s t tok) | d => d
+  | .transform t tp tok mie a, cfg =>
+    match facDen a cfg with | (p, .ok s) => (p + tp, mapIErr mie (transRes s t tok)) | d => d
   | .applyCfg s f ip iok, cfg => (ip, cfgRes s f iok cfg)
   | .applyCfgFac a f ip iok, cfg =>
     match facDen a 0 with
@@ -112,7 +118,7 @@ def iDen : IFut → Nat × IRes
   | .boxedI fu => mapOk (.wrap .boxed) (iDen fu)
   | .andThenI fa fb a b =>
     joinDen (match a with | some s => (0, .ok s) | none => iDen fa) (match b with | some s => (0, .ok s) | none => iDen fb)
-  | .transA fu t tp tok => match iDen fu with | (p, .ok s) => (p + tp, transRes s t tok) | d => d
+  | .transA fu t tp tok mie => match iDen fu with | (p, .ok s) => (p + tp, mapIErr mie (transRes s t tok)) | d => d
   | .transB fu => iDen fu
   | .cfgA fu f ip iok cfg =>
     match iDen fu with
@@ -130,7 +136,7 @@ def iFresh : IFut → Bool
   | .applyFnI fu _ _ => iFresh fu
   | .boxedI fu => iFresh fu
   | .andThenI fa fb a b => (a.isSome || iFresh fa) && (b.isSome || iFresh fb)
-  | .transA fu _ _ _ => iFresh fu
+  | .transA fu _ _ _ _ => iFresh fu
   | .transB fu => iFresh fu
   | .cfgA fu _ _ _ _ => iFresh fu
   | .cfgB _ _ _ _ _ => true
@@ -146,7 +152,7 @@ theorem newService_spec (f : Fac) (cfg : Nat) :
   | mapInitErr a f ih => simp [newService, iDen, facDen, iFresh, ih]
   | andThen a b iha ihb => simp [newService, iDen, facDen, iFresh, iha, ihb]
   | applyFn a kind k ih => simp [newService, iDen, facDen, iFresh, ih]
-  | transform t tp tok a ih => simp [newService, iDen, facDen, iFresh, ih]
+  | transform t tp tok mie a ih => simp [newService, iDen, facDen, iFresh, ih]
   | applyCfg s f ip iok => simp [newService, iDen, facDen, iFresh]
   | applyCfgFac a f ip iok ih => simp [newService, iDen, facDen, iFresh, ih]
   | mapConfig a f ih => simp [newService, facDen, ih]
@@ -164,6 +170,13 @@ def ISpec (fu : IFut) (w : Nat) : Prop := iFresh fu = true → ISpecOf (iDen fu)
 
 theorem pollLeafI_spec (id p : Nat) (r : IRes) (w : Nat) : ISpecOf (p, r) (pollLeafI id p r false w) := by
   cases p <;> simp [ISpecOf, pollLeafI, iDen, iFresh, quiet]
+
+theorem pollTrans_spec (t tp : Nat) (r : IRes) (mie : Option Nat) (w : Nat) :
+    ISpecOf (tp, mapIErr mie r) (pollTrans t tp r mie w) := by
+  cases mie with
+  | none => simpa [pollTrans, mapIErr] using pollLeafI_spec t tp r w
+  | some m =>
+    cases tp <;> cases r <;> simp [ISpecOf, pollTrans, pollLeafI, mapIErr, iDen, iFresh, quiet, iresOut]
 
 theorem cfgBStep_spec (svc : Svc) (f ip : Nat) (iok : Bool) (cfg w : Nat) :
     ISpecOf (cfgDen svc f ip iok cfg) (cfgBStep svc f ip iok cfg w) := by
@@ -216,9 +229,9 @@ theorem ipoll_spec (fu : IFut) (w : Nat) : ISpec fu w := by
     rename_i svc f ip iok cfg w
     simp only [ISpec, ipoll, iDen]; intro _; exact cfgBStep_spec svc f ip iok cfg w
   case case24 =>
-    rename_i fu0 t tp tok w fst s l hx fu r l2 hp ih
+    rename_i fu0 t tp tok mie w fst s l hx fu r l2 hp ih
     intro hf; simp only [iFresh] at hf; have ih := ih hf
-    have hl := pollLeafI_spec t tp (transRes s t tok) w
+    have hl := pollTrans_spec t tp (transRes s t tok) mie w
     rw [hp] at hl
     simp only [ISpecOf] at ih hl ⊢; rw [ipoll]; simp only [hx, hp]; rw [hx] at ih; simp only [iDen, iFresh]
     rcases hd : iDen fu0 with ⟨p, r0⟩; rw [hd] at ih; cases r0 <;> simp at ih hl ⊢ <;> grind [quiet]
@@ -353,7 +366,7 @@ def facLeaves : Fac → Nat → List (Nat × Nat)
   | .mapInitErr a _, cfg => facLeaves a cfg
   | .andThen a b, cfg => facLeaves a cfg ++ facLeaves b cfg
   | .applyFn a _ _, cfg => facLeaves a cfg
-  | .transform _ _ _ a, cfg => facLeaves a cfg
+  | .transform _ _ _ _ a, cfg => facLeaves a cfg
   | .applyCfg _ _ _ _, _ => []
   | .applyCfgFac a _ _ _, _ => facLeaves a 0
   | .mapConfig a f, cfg => facLeaves a (mapFn f cfg)
@@ -370,7 +383,7 @@ theorem newService_news (f : Fac) (cfg : Nat) : newEvts (newService f cfg).2 = f
   | mapInitErr a f ih => simp [newService, facLeaves, ih]
   | andThen a b iha ihb => simp [newService, facLeaves, newEvts_append, iha, ihb]
   | applyFn a kind k ih => simp [newService, facLeaves, ih]
-  | transform t tp tok a ih => simp [newService, facLeaves, ih]
+  | transform t tp tok mie a ih => simp [newService, facLeaves, ih]
   | applyCfg s f ip iok => simp [newService, newEvts, facLeaves]
   | applyCfgFac a f ip iok ih => simp [newService, facLeaves, ih]
   | mapConfig a f ih => simp [newService, newEvts, facLeaves, ih]
